@@ -205,6 +205,9 @@ func (e *Enc) lookup(fr *frame, st *State, x *ssa.Lookup) Value {
 		okT := e.q.define(fr.prefix+x.Name()+"_ok", sortBool, and("(not (= "+m.term+" 0))", sel(sel(st.get(dom), m.term), kt)))
 		v := e.q.define(fr.prefix+x.Name()+"_v", e.u.sortOf(mt.Elem()), ite(okT, sel(sel(st.get(val), m.term), kt), e.u.zero(mt.Elem())))
 		st.assume(e.wf(st, mt.Elem(), v))
+		if t := e.mapInvTerm(st, x.X.Type(), Value{term: v, typ: mt.Elem()}); t != "true" {
+			st.assume(implies(okT, t))
+		}
 		if x.CommaOk {
 			return Value{typ: x.Type(), tuple: []Value{{term: v, typ: mt.Elem()}, {term: okT, typ: types.Typ[types.Bool]}}}
 		}
@@ -224,6 +227,9 @@ func (e *Enc) mapUpdate(fr *frame, st *State, x *ssa.MapUpdate) {
 	k := fr.val(st, x.Key)
 	v := fr.val(st, x.Value)
 	e.oblige(st, "nopanic", "nil-map-store", "(not (= "+m.term+" 0))", x.Pos())
+	if t := e.mapInvTerm(st, x.Map.Type(), v); t != "true" {
+		e.oblige(st, "mapinv", shortTypeName(x.Map.Type()), t, x.Pos())
+	}
 	e.mapStore(st, x.Map.Type(), m.term, k.term, e.materialize(st, v))
 }
 
@@ -296,6 +302,9 @@ func (e *Enc) rangeNext(fr *frame, st *State, x *ssa.Next) Value {
 	st.assume(implies(ok, e.wf(st, mt.Key(), k)))
 	v := e.q.define(fr.prefix+x.Name()+"_v", e.u.sortOf(mt.Elem()), sel(sel(st.get(val), m), k))
 	st.assume(implies(ok, e.wf(st, mt.Elem(), v)))
+	if t := e.mapInvTerm(st, it.mapVal.typ, Value{term: v, typ: mt.Elem()}); t != "true" {
+		st.assume(implies(ok, t))
+	}
 	e.ghostSet(st, it.ghost, ite(ok, store(vis, k, "true"), vis))
 	kv := Value{term: k, typ: mt.Key()}
 	vv := Value{term: v, typ: mt.Elem()}
@@ -373,9 +382,61 @@ func (e *Enc) recv(fr *frame, st *State, x *ssa.UnOp, ch Value) Value {
 	v := e.freshValue(st, fr.prefix+x.Name(), et)
 	if x.CommaOk {
 		ok := e.q.fresh(fr.prefix+x.Name()+"_ok", sortBool)
+		e.recvSiteFacts(fr, st, ch, v, ok, x.Pos())
 		return Value{typ: x.Type(), tuple: []Value{v, {term: ok, typ: types.Typ[types.Bool]}}}
 	}
+	e.recvSiteFacts(fr, st, ch, v, "true", x.Pos())
 	return v
+}
+
+// recvSiteFacts applies the contract's recvsite clauses to a value that has
+// just been received: assumptions about the value (each one listed in the
+// evidence) hold when the receive delivered a value (ok); "stable" locals are
+// from now on preserved across synchronisation points.
+func (e *Enc) recvSiteFacts(fr *frame, st *State, ch, val Value, ok string, pos token.Pos) {
+	con := e.contract
+	if con == nil || fr.inlined || fr.fn != e.top {
+		return
+	}
+	for _, rs := range con.RecvSites {
+		if rs.Elem != "" {
+			tenv := e.frameEnv(fr, st)
+			want, ok := tenv.tryType(rs.Elem)
+			if !ok {
+				e.v.specErrors = append(e.v.specErrors, fmt.Sprintf("%s: recvsite: unknown channel element type %s", con.Header, rs.Elem))
+				continue
+			}
+			if !types.Identical(val.typ, want) {
+				continue
+			}
+		}
+		if rs.Clause == nil {
+			for _, name := range rs.Stable {
+				ds := fr.namedDefs[name]
+				found := false
+				for _, d := range ds {
+					if d.isAddr && d.val.addr == nil {
+						e.localRefs = append(e.localRefs, d.val.term)
+						found = true
+					}
+				}
+				if !found {
+					e.v.specErrors = append(e.v.specErrors, fmt.Sprintf("%s: recvsite stable: %s is not a captured local of this function", con.Header, name))
+				}
+				e.v.callsiteHits[con.Key+"/stable:"+name]++
+				e.v.useTrusted("assume:" + con.Key + ": local " + name + " is not written by another goroutine after a receive has returned")
+			}
+			continue
+		}
+		env := e.frameEnv(fr, st)
+		e.lenientLocals(fr, st, env)
+		env.vars["m"] = val
+		env.vars["ch"] = ch
+		env.where = "recvsite at " + e.pos(pos)
+		e.v.callsiteHits[con.Key+"/"+rs.Clause.Label]++
+		st.assume(implies(ok, e.evalClauseAssume(env, rs.Clause)))
+		e.v.useTrusted("assume:" + con.Key + ":" + rs.Clause.Label + ": " + rs.Clause.Src)
+	}
 }
 
 func (e *Enc) selectInstr(fr *frame, st *State, x *ssa.Select) Value {
@@ -400,7 +461,10 @@ func (e *Enc) selectInstr(fr *frame, st *State, x *ssa.Select) Value {
 			_ = i
 		} else {
 			et := ch.typ.Underlying().(*types.Chan).Elem()
-			tuple = append(tuple, e.freshValue(st, fmt.Sprintf("%s%s_r%d", fr.prefix, x.Name(), i), et))
+			rv := e.freshValue(st, fmt.Sprintf("%s%s_r%d", fr.prefix, x.Name(), i), et)
+			tuple = append(tuple, rv)
+			// the received value is meaningful when this case was chosen and the channel delivered
+			e.recvSiteFacts(fr, st, ch, rv, and("(= "+idx+" "+fmt.Sprint(i)+")", tuple[1].term), s.Pos)
 		}
 	}
 	return Value{typ: x.Type(), tuple: tuple}
@@ -808,4 +872,27 @@ func sortedKeys(m map[string]string) []string {
 	}
 	sort.Strings(out)
 	return out
+}
+
+// mapInvTerm: the declared invariant of the values of maps of type t, for
+// value v ("true" if there is none).
+func (e *Enc) mapInvTerm(st *State, t types.Type, v Value) string {
+	if len(e.v.db.MapInvs) == 0 {
+		return "true"
+	}
+	for _, mi := range e.v.db.MapInvs {
+		pkg := e.v.pkgByPath[mi.Pkg]
+		env := &SpecEnv{e: e, pkg: pkg, vars: map[string]Value{"v": v}, cur: st, where: "mapinv " + mi.TypeText}
+		mt, ok := env.tryType(mi.TypeText)
+		if !ok {
+			e.v.specErrors = append(e.v.specErrors, fmt.Sprintf("%s:%d: mapinv: unknown type %s", mi.File, mi.Line, mi.TypeText))
+			continue
+		}
+		if !types.Identical(mt, t) && !types.Identical(mt.Underlying(), t.Underlying()) {
+			continue
+		}
+		e.v.useTrusted("mapinv:" + mi.TypeText + " (checked at every map update under contract; see structural#mapinv-writes)")
+		return e.evalClause(env, mi.Clause)
+	}
+	return "true"
 }
